@@ -189,6 +189,7 @@ type stepCase struct {
 	OldNone  bool
 	Old, New pl
 	RawNew   string // overrides New.json() (non-integer levels)
+	Pseudo   bool   `json:",omitempty"` // pseudo-ID room version only: sender IDs distinct from user IDs
 }
 
 func creatorsFor(version string) (map[string]int64, []string, string) {
@@ -215,7 +216,15 @@ func runStep(r *harness.Run, c stepCase) (accepted bool, err error) {
 	}
 	sc := authgen.Scenario{Version: c.Version, State: st, Event: authgen.Ev{Type: "m.room.power_levels", StateKey: evgen.S(""), Sender: c.Sender, Content: content, Prev: []string{"$p" + strings.Repeat("x", 42)}}}
 	var verdict, berr error
-	if p, msg := harness.Try(func() { verdict, berr = sc.Run() }); p {
+	if p, msg := harness.Try(func() {
+		if c.Pseudo {
+			// the same room with sender IDs that are not user IDs (users keys, state keys and senders are sender IDs)
+			enc, q := sc.PseudoEncode([]string{C, S, O, P})
+			verdict, berr = enc.RunWith(q)
+		} else {
+			verdict, berr = sc.Run()
+		}
+	}); p {
 		return false, fmt.Errorf("Allowed panics: %s", msg)
 	}
 	if berr != nil {
@@ -365,6 +374,17 @@ func run(r *harness.Run) {
 				r.Violation(fmt.Sprintf("step:%s/%s:%s:old#%d:%v", strings.Join(ks, "+"), senderKind(j.sender, none), j.ver, j.oi, cur.json()), err.Error(), "step", c)
 			} else if acc && changed > 0 {
 				r.Nontrivial(fmt.Sprintf("%s|%s|%d|%s", j.ver, j.sender, j.oi, cur.json()))
+			}
+			if j.ver == "org.matrix.msc4014" {
+				// the pseudo-ID room version again with sender IDs that are not user IDs: same invariant, and the same verdict
+				cp := c
+				cp.Pseudo = true
+				accP, errP := runStep(r, cp)
+				if errP != nil {
+					r.Violation(fmt.Sprintf("step-pseudo:%s:%s:old#%d:%v", senderKind(j.sender, none), j.ver, j.oi, cur.json()), errP.Error(), "step", cp)
+				} else if err == nil && accP != acc {
+					r.Violation(fmt.Sprintf("step-pseudo-differs:%s:%s:old#%d:%v", senderKind(j.sender, none), j.ver, j.oi, cur.json()), fmt.Sprintf("room version %s: power-levels event by %s accepted=%v with user IDs as sender IDs but accepted=%v with pseudo IDs mapped to the same users; current %s, proposed %s", j.ver, j.sender, acc, accP, oldJSON(c), cur.json()), "step", cp)
+				}
 			}
 			kk := K
 			if r.Quick() && (j.ver == "10" || j.ver == "12") {
